@@ -15,7 +15,8 @@
   characters, the model says TypeError), the theorem carries the shape the metaschema demands
   (`Spec.shapeClause`); `…_needs_shape` theorems show the hypothesis is necessary. `schema.isObj`
   holds wherever a keyword function is called (`schemaBody` passes `.obj kvs`).
-  Helper lemmas: JS/Proofs/TieBase.lean, TieA.lean, TieB.lean, TieC.lean.
+  Helper lemmas: JS/Proofs/TieBase.lean, TieA.lean, TieB.lean, TieC.lean; TieCompose.lean for the
+  composition (the two evaluators are equal on shaped schemas; last section).
 
   Not translated (outside the subset of `JS.Py.IR`; tied by the differential correspondence only):
   additionalProperties, additionalItems, multipleOf, format, ref, type, anyOf, oneOf,
@@ -24,6 +25,7 @@
 import JS.Proofs.TieA
 import JS.Proofs.TieB
 import JS.Proofs.TieC
+import JS.Proofs.TieCompose
 namespace JS.Props.Tie
 open JS JS.Py JS.Generated.Source
 
@@ -163,5 +165,124 @@ theorem tie_if_needs_shape :
     model does -/
 example : (Fn.run default (Draft.d7.cfg none) (fun _ _ => nothing) src_minItems (jnat 2) (.arr [.null]) (.obj []) none default).errs.length = 1 := by
   rw [tie_minItems]; decide +kernel
+
+/-! ### composition: the two evaluators are equal on every schema of the prescribed shape
+
+`Py.evalSrc` runs the interpreted source of every translated keyword function, `eval` the model's
+functions. On a schema object of the shape the draft's metaschema prescribes (`Spec.shapedR`,
+references allowed), every member's key is bound by the REGENERATED keyword table
+(`Draft.keywords`) to a function whose tie theorem applies — its shape hypothesis is what
+`Spec.shapedN` demands of that member (`NoCrash.table_ok`, `NoCrash.interp`) — so one layer of the
+two evaluators is the same generator whatever the recursive call. References may designate
+non-schemas, so the full statement is about the GUARDED evaluators (as C03); for reference-free
+schemas, and whenever the guard does not fire, it is about the evaluators themselves.
+Helper lemmas: JS/Proofs/TieCompose.lean. -/
+
+/-- the guarded evaluator over the interpreted source -/
+def evalSrcG (env : Env) (impl : FmtImpl) (d : Draft) (fc : Option FormatChecker) : Nat → Rec
+  | 0 => fun _ _ => stopG .fuel
+  | n + 1 => Py.evalStepSrc env impl (d.cfg fc) (Props.C03.guardRec d (evalSrcG env impl d fc n))
+
+/-- one member of a shaped schema object (`NoCrash.interp … (NoCrash.branchOf d k) v` is what
+    `Spec.shapedN` demands of the member `(k, v)`): the interpreted source of the function bound to
+    `k` is the model's function -/
+theorem applyKwSrc_eq_applyKw (env : Env) (impl : FmtImpl) (d : Draft) (fc : Option FormatChecker)
+    (rec : Rec) (refs : Bool) (n : Nat) (k : Str) (v : Json) (f : KwFn)
+    (hf : lookupS k (d.cfg fc).keywords = some f)
+    (hv : NoCrash.interp refs d n (NoCrash.branchOf d k) v = true)
+    (inst : Json) (kvs : List (Str × Json)) :
+    applyKwSrc env impl (d.cfg fc) rec f v inst (.obj kvs) = applyKw env impl (d.cfg fc) rec f v inst (.obj kvs) :=
+  JS.Tie.applyKwSrc_eq_applyKw env impl d fc rec (NoCrash.expected_of_lookup hf) hv inst kvs
+
+/-- **One layer.** On a shaped schema (references allowed) one layer of the evaluator over the
+    interpreted source is one layer of the model's evaluator, for ANY recursive call. -/
+theorem evalStepSrc_eq_evalStep (env : Env) (impl : FmtImpl) (d : Draft) (fc : Option FormatChecker)
+    (rec : Rec) (i s : Json) (hs : Spec.shapedR d s = true) :
+    evalStepSrc env impl (d.cfg fc) rec i s = evalStep env impl (d.cfg fc) rec i s :=
+  JS.Tie.evalStepSrc_eq_evalStep env impl d fc rec i s hs
+
+/-- **Composition (guarded evaluators).** On every shaped schema, for every fuel and instance, the
+    guarded evaluator over the interpreted source IS the guarded model evaluator (as generators:
+    every budget, every resolver state). -/
+theorem evalSrcG_eq_evalG (env : Env) (impl : FmtImpl) (d : Draft) (fc : Option FormatChecker) (n : Nat) :
+    ∀ (i s : Json), Spec.shapedR d s = true →
+      evalSrcG env impl d fc n i s = Props.C03.evalG env impl d fc n i s := by
+  induction n with
+  | zero => intro i s _; rfl
+  | succ n ih =>
+    intro i s hs
+    show evalStepSrc env impl (d.cfg fc) (Props.C03.guardRec d (evalSrcG env impl d fc n)) i s
+      = evalStep env impl (d.cfg fc) (Props.C03.guardRec d (Props.C03.evalG env impl d fc n)) i s
+    rw [JS.Tie.guardRec_congr d _ _ ih]
+    exact evalStepSrc_eq_evalStep env impl d fc _ i s hs
+
+/-- **Composition, reference-free schemas.** The evaluators themselves are equal. -/
+theorem evalSrc_eq_eval_reffree (env : Env) (impl : FmtImpl) (d : Draft) (fc : Option FormatChecker)
+    (n : Nat) (i s : Json) (hs : Spec.shaped d s = true) :
+    Py.evalSrc env impl (d.cfg fc) n i s = eval env impl (d.cfg fc) n i s :=
+  JS.Tie.evalSrc_eq_eval_good env impl d fc n i s ⟨_, hs⟩
+
+/-- **Composition, with references.** On a shaped schema the evaluators themselves give the same
+    run, unless some reference met on the way designates something that is not a schema (the
+    guard of C03 fires). -/
+theorem evalSrc_eq_eval (env : Env) (impl : FmtImpl) (d : Draft) (fc : Option FormatChecker)
+    (n : Nat) (i s : Json) (hs : Spec.shapedR d s = true) (b : Option Nat) (st : RState) :
+    (Props.C03.evalG env impl d fc n i s b st).stop = .raised Props.C03.unshapedTarget
+    ∨ Py.evalSrc env impl (d.cfg fc) n i s b st = eval env impl (d.cfg fc) n i s b st := by
+  rcases JS.Tie.evalG_RU_evalSrc env impl d fc n i s hs b st with h | h
+  · exact .inl h
+  · rcases Props.C03.guard_simulation env impl d fc n i s b st with h' | h'
+    · exact .inl h'
+    · exact .inr (h.symm.trans h')
+
+/-- non-vacuity: a Draft 7 schema with eight translated keywords … -/
+def exSchema : Json :=
+  .obj [(skey "type", .str (skey "object")),
+        (skey "properties", .obj [(skey "a", .obj [(skey "type", .str (skey "array")),
+                                                   (skey "minItems", jnat 2),
+                                                   (skey "items", .obj [(skey "enum", .arr [jnat 1, jnat 2])])])]),
+        (skey "required", .arr [.str (skey "a"), .str (skey "b")])]
+def exInst : Json := .obj [(skey "a", .arr [jnat 3])]
+
+theorem exSchema_shaped : Spec.shaped .d7 exSchema = true := by decide +kernel
+
+/-- … on which the run of the interpreted source is the model's run, with three errors -/
+example : (Py.evalSrc default ⟨fun _ _ => none⟩ (Draft.d7.cfg none) 10 exInst exSchema none default).errs.length = 3 := by
+  rw [evalSrc_eq_eval_reffree _ _ _ _ _ _ _ exSchema_shaped]; decide +kernel
+
+/-- non-vacuity with a reference: `properties.a` refers to `#/definitions/p` (translated `minimum`
+    and `enum` behind the untranslated `$ref`); the urllib functions are answered by a toy
+    environment that is good enough for `#`-references (as in C19) -/
+def exSchemaR : Json :=
+  .obj [(skey "definitions", .obj [(skey "p", .obj [(skey "minimum", jnat 5), (skey "enum", .arr [jnat 1, jnat 7])])]),
+        (skey "properties", .obj [(skey "a", .obj [(skey "$ref", .str (skey "#/definitions/p"))])]),
+        (skey "required", .arr [.str (skey "b")])]
+def exInstR : Json := .obj [(skey "a", jnat 1)]
+def exSplitHash (u : Str) : Str × Str := (u.takeWhile (· ≠ '#'), (u.dropWhile (· ≠ '#')).drop 1)
+def exEnv : Env := { (default : Env) with
+  urinorm := fun u => some (if (exSplitHash u).2 = [] then (exSplitHash u).1 else u),
+  urljoin := fun a b => some (match b with | '#' :: _ => (exSplitHash a).1 ++ b | [] => a | _ => b),
+  urldefrag := fun u => some (exSplitHash u),
+  scheme := fun _ => some [] }
+def exSt : RState :=
+  { scopes := [[]], store := [([], exSchemaR)], memo := [], memoCap := none, cacheRemote := false,
+    clock := 0, fetchLog := [] }
+
+theorem exSchemaR_shaped : Spec.shapedR .d7 exSchemaR = true := by decide +kernel
+
+/-- the guarded run over the interpreted source is the guarded model run: two errors (`minimum`
+    through the reference, `required`) -/
+example : (evalSrcG exEnv ⟨fun _ _ => none⟩ .d7 none 10 exInstR exSchemaR none exSt).errs.length = 2 := by
+  rw [evalSrcG_eq_evalG _ _ _ _ _ _ _ exSchemaR_shaped]; decide +kernel
+
+/-- and so is the unguarded one (the guard does not fire) -/
+example : Py.evalSrc exEnv ⟨fun _ _ => none⟩ (Draft.d7.cfg none) 10 exInstR exSchemaR none exSt
+    = eval exEnv ⟨fun _ _ => none⟩ (Draft.d7.cfg none) 10 exInstR exSchemaR none exSt := by
+  refine (evalSrc_eq_eval _ _ _ _ _ _ _ exSchemaR_shaped _ _).resolve_left ?_
+  intro h
+  have hd : (match (Props.C03.evalG exEnv ⟨fun _ _ => none⟩ .d7 none 10 exInstR exSchemaR none exSt).stop with
+      | .done => true | _ => false) = true := by decide +kernel
+  rw [h] at hd
+  cases hd
 
 end JS.Props.Tie
